@@ -655,7 +655,8 @@ def _lint(ctx, prop):
         cp2, ncp2 = lint.rule_CP2(ctx, files)
         swp, nswp = lint.rule_SWP1(ctx, files)
         sc1, nsc1 = lint.rule_SC1(ctx, files)
-        out += [sw, ov, n1, d3, cp, cp2, nb, zq, prt, tw, ang, one, aux1, swp, sc1]
+        pos1, npos1 = lint.rule_POS1(ctx, files)
+        out += [sw, ov, n1, d3, cp, cp2, nb, zq, prt, tw, ang, one, aux1, swp, sc1, pos1]
     return out
 
 
